@@ -562,3 +562,6 @@ def run(report, repo):
   report.assume('logging.Handler.handle serialises emit() per handler '
                 '(handler lock): ordering / exactly-once per handler is '
                 'delegated to the standard library')
+  from sa.rules import extra4, c09  # pylint: disable=g-import-not-at-top
+  report.guard(extra4.handler_always_installed, report, repo, 'C19-R7')
+  report.guard(c09.r1_exit_paths, report, repo, rule='C19-R8')
